@@ -38,8 +38,15 @@ def structures(draw, max_atoms=300, max_tuples=30, allow_empty=True):
     """A sentence by construction: formula elements with counts, tuples (any order /
     orientation / duplicates), attribute blocks (split / merged / permuted)."""
     k = draw(st.sampled_from([0, 1, 1, 2, 2, 3, 3, 4, 6, 10] if allow_empty else [1, 1, 2, 2, 3, 3, 4, 6, 10]))
-    pool = draw(st.sampled_from(["prefix", "prefix", "all", "common"]))
-    base = PREFIX_SYMS if pool == "prefix" else SYMBOLS if pool == "all" else ["C", "H", "N", "O", "S", "Cl", "Br", "F", "P", "Si", "Fe"]
+    pool = draw(st.sampled_from(["prefix", "prefix", "all", "common", "adjacent"]))
+    if pool == "adjacent":
+        # neighbours in the periodic table (a transposition in an element table shows only
+        # when both elements occur together)
+        z0 = draw(st.integers(0, 115))
+        base = SYMBOLS[z0 : z0 + 3]
+        k = min(max(k, 2), 3)
+    else:
+        base = PREFIX_SYMS if pool == "prefix" else SYMBOLS if pool == "all" else ["C", "H", "N", "O", "S", "Cl", "Br", "F", "P", "Si", "Fe"]
     syms = draw(st.lists(st.sampled_from(base), min_size=k, max_size=k, unique=True))
     if syms and draw(st.integers(0, 2)) == 0 and "C" not in syms:
         syms[0] = "C"
